@@ -66,7 +66,14 @@ def main():
             for f in st["failures"]:
                 rep.add_violation(f["key"], f["what"], {"engine": st["engine"], "group": gname, "case": f["case"],
                                                         "detail": {k: v for k, v in f.items() if k not in ("case", "key", "what", "group")}})
-    rc = rep.finish(explanation=getattr(mod, "EXPLANATION", ""), extra_cov=getattr(mod, "EXTRA_COV", None))
+    expl = getattr(mod, "EXPLANATION", "")
+    try:   # the deductive part is described by the generated manifest text (one source for MANIFEST and evidence)
+        meta = json.load(open(core.VERIF / "tools" / "manifest_meta.json")).get(a.prop, {})
+        if rep.functions and meta.get("text"):
+            expl = "E1 (contracts discharged function by function, see functions_under_contract / obligation_list): " + meta["text"] + "  ||  " + expl
+    except Exception:
+        pass
+    rc = rep.finish(explanation=expl, extra_cov=getattr(mod, "EXTRA_COV", None))
     return rc
 
 
